@@ -153,8 +153,24 @@ def shrimpStage (temp dt stage : α) : α :=
   npClip 1.0 6.0 (stage + Gen.shrimp_delta_stage temp dt)
 
 /-! ### vps -/
+/-- `x == 0` -/
+def isZeroS (x : α) : Bool := !(decide (x < 0.0) || decide (0.0 < x))
+
 /-- `np.random.uniform(0, max_depth)` = `0 + (max_depth - 0) * u` -/
 def vpsZ (maxDepth u : α) : α := 0.0 + (maxDepth - 0.0) * u
+
+structure Vps (α : Type) where
+  z : α
+  age : α
+  alive : Bool
+
+/-- vps `update_ibm`: random depth, ageing in seconds, retired when too old or when the fish
+velocity at the particle is zero (open ocean reached). `2**30 = 1073741824`. -/
+def vpsUpdate (maxDepth dt u fu fv : α) (p : Vps α) : Vps α :=
+  let age := p.age + dt
+  let notOld := decide (age < 1073741824.0)
+  let notOcean := !(isZeroS fu) || !(isZeroS fv)
+  ⟨vpsZ maxDepth u, age, (p.alive && notOld) && notOcean⟩
 
 end
 end Ladim.Bio
